@@ -309,6 +309,10 @@ def render(funs, target, kind):
         ps = ", ".join("p%d_%d" % (j, fi) for j in range(fun["params"]))
         root_mode[0] = fi == 0 and bool(fun.get("root"))
         body = rb(fun["body"], "  ") + ["  FIN <- %d; return nil;" % (9000 + fi) if root_mode[0] else "  return %d;" % (9000 + fi)]
+        if fun.get("pad"):
+            # straight-line code without effect in front of everything else: the tries of this function begin around or
+            # beyond byte 65536 of its bytecode (256 bytes per line), where two-byte quantities no longer hold an offset
+            body = ["  " + " + ".join(["CNT"] * 64) + ";"] * fun["pad"] + body
         root_mode[0] = False
         if fun["shape"] == "method":
             lines.append("class Host%d : Host { m%d(%s) {" % (fi, fi, ps))
@@ -491,7 +495,13 @@ class C04(Check):
         kinds = KINDS if ctx.tier == "thorough" else rng.sample(KINDS, 2)
         targets = [[point, kind] for point in points for kind in (kinds if point else kinds[:1])]
         gc = schedules.never() if rng.random() < 0.4 else schedules.random_schedule(rng, self.startup, self.startup + 800)
-        return {"ir": funs, "targets": targets, "gc": gc, "arena": schedules.random_policy(rng, 0.3)}
+        case = {"ir": funs, "targets": targets, "gc": gc, "arena": schedules.random_policy(rng, 0.3)}
+        # (drawn last so that the other dimensions of a case do not depend on it)
+        if rng.random() < 0.03:
+            funs[rng.randrange(len(funs))]["pad"] = rng.randint(250, 300)
+            counted = targets[:1] + [t for t in targets[1:] if t[0] <= 12]
+            case["targets"] = counted
+        return case
 
     def judge(self, ctx, case):
         funs = case["ir"]
@@ -583,6 +593,8 @@ class C04(Check):
                 outcome["violations"].append({"clause": clause,
                                               "detail": "fault point %d kind %s: %s\n%s" % (target, kind, detail, source[:3500]),
                                               "case": single, "explicit": explicit})
+        if any(fun.get("pad") for fun in funs):
+            counters["programs_with_a_function_beyond_64k_of_bytecode"] = 1
         for shape in ("cb", "cbfor", "while", "capture"):
             if has(funs, shape):
                 counters["programs_with_" + shape] = 1
